@@ -6,6 +6,7 @@ import (
 	"math"
 	"math/rand"
 	"sort"
+	"strconv"
 
 	"github.com/aclements/go-moremath/mathx"
 )
@@ -26,9 +27,12 @@ type c08Case struct {
 	A  F64   `json:"a,omitempty"`
 	B  F64   `json:"b,omitempty"`
 	Xs []F64 `json:"xs,omitempty"`
-	Fn int   `json:"fn,omitempty"` // op 6: 1 BetaInc(.,A,B), 2 GammaInc(A,.), 3 GammaIncComp(A,.)
-	Lo F64   `json:"lo,omitempty"` // op 6: scan range, N cells
-	Hi F64   `json:"hi,omitempty"`
+	// op 2: further arguments given as IEEE-754 bit patterns (hexadecimal): JSON cannot carry the sign bit or
+	// the payload of a NaN
+	Bits []string `json:"bits,omitempty"`
+	Fn   int      `json:"fn,omitempty"` // op 6: 1 BetaInc(.,A,B), 2 GammaInc(A,.), 3 GammaIncComp(A,.)
+	Lo   F64      `json:"lo,omitempty"` // op 6: scan range, N cells
+	Hi   F64      `json:"hi,omitempty"`
 }
 
 func c08Run(raw []byte) (*Line, error) {
@@ -57,8 +61,19 @@ func c08Run(raw []byte) (*Line, error) {
 			l.I(k).F(mathx.Choose(c.N, k)).F(mathx.Lchoose(c.N, k))
 		}
 	case 2:
-		l.I(len(c.Xs))
+		var args []float64
 		for _, x := range c.Xs {
+			args = append(args, float64(x))
+		}
+		for _, b := range c.Bits {
+			u, err := strconv.ParseUint(b, 16, 64)
+			if err != nil {
+				return nil, fmt.Errorf("bad bit pattern %q", b)
+			}
+			args = append(args, math.Float64frombits(u))
+		}
+		l.I(len(args))
+		for _, x := range args {
 			o := mathx.Sign(float64(x))
 			if o == 0 && math.Signbit(o) {
 				// the line format identifies -0 with +0; the documented result for x == 0 is the
@@ -257,7 +272,20 @@ func c08Gen(tier string, rng *rand.Rand, emit func(interface{})) {
 	for i := 0; i < 40; i++ {
 		sx = append(sx, F64(genValue(rng, rng.Intn(4))))
 	}
-	emit(c08Case{Op: 2, Xs: sx})
+	// bit patterns: NaNs with the sign bit set and various payloads (quiet, signalling, all ones), +-0, +-Inf,
+	// the smallest and largest denormals, the smallest normals
+	sb := []string{"fff8000000000000", "7ff8000000000000", "7ff8000000000001", "fff8000000000001", "fff0000000000001", "7ff0000000000001",
+		"ffffffffffffffff", "7fffffffffffffff", "fff4000000000000", "7ff4000000000000", "8000000000000000", "0", "8000000000000001", "1",
+		"800fffffffffffff", "fffffffffffff", "fff0000000000000", "7ff0000000000000", "10000000000000", "8010000000000000"}
+	for i := 0; i < 24; i++ {
+		// random NaN payloads, both signs, quiet and signalling
+		u := uint64(0x7ff0000000000000) | (rng.Uint64() & 0x000fffffffffffff) | 1
+		if i%2 == 0 {
+			u |= 1 << 63
+		}
+		sb = append(sb, strconv.FormatUint(u, 16))
+	}
+	emit(c08Case{Op: 2, Xs: sx, Bits: sb})
 	// ---- op 3: BetaInc
 	outside := []float64{-0.5, 1.5, -5e-324, math.Nextafter(1, 2), -1e300, 1e300, math.Inf(1), math.Inf(-1), math.NaN()}
 	// (i) integer parameters, exhaustive small
